@@ -5,6 +5,7 @@
   tables it leaves keep the standing facts (`EnvFacts`).
 -/
 import XotModel.Lemmas.AcceptedStep
+import XotModel.Lemmas.AcceptedLineEnds
 
 namespace XotModel.Accepted
 
@@ -149,6 +150,9 @@ theorem prefix_acc {b b' : Builder} (p : Str) (u : StrSpan) (sp : Span) (h : Acc
   split at hr
   · cases hr
   · rename_i uri hdec
+    split at hr
+    · cases hr
+    rename_i hres
     dsimp only at hr
     split at hr
     · cases hr
@@ -171,9 +175,10 @@ theorem prefix_acc {b b' : Builder} (p : Str) (u : StrSpan) (sp : Span) (h : Acc
         · obtain ⟨p1, p2⟩ := internPrefix_facts b.env p
           obtain ⟨n1, n2⟩ := internNamespace_facts (b.env.internPrefix p).1 uri
           have happ := internNamespace_app (b.env.internPrefix p).1 uri
-          refine ⟨Nat.lt_of_lt_of_le p1 (EnvApp.prefixes_le happ), n1, ?_, ?_⟩
+          refine ⟨Nat.lt_of_lt_of_le p1 (EnvApp.prefixes_le happ), n1, ?_, ?_, ?_⟩
           · rw [EnvApp.prefixStr happ p1, p2]; exact hp
           · rw [n2]; exact parseGo_all hu hdec
+          · rw [EnvApp.prefixStr happ p1, p2, n2]; simpa using hres
 
 theorem attribute_acc {b b' : Builder} (pfx loc value : StrSpan) (h : AccInv b)
     (hq : qnameOK pfx.text loc.text = true) (hv : value.text.all isXmlChar = true)
@@ -281,16 +286,26 @@ theorem step_acc {b b' : Builder} (t : Token) (h : AccInv b) (ht : t.accLex = tr
     simp only [Token.accLex] at ht
     simp only [Builder.step, Builder.comment, Step.ok.injEq] at hr
     subst hr
-    exact ⟨⟨h.facts, addLeaf_chain (.comment t.text) h.chain ht rfl rfl, h.eb⟩, EnvReach.refl _⟩
+    have hval : ValAcc b.env b.nsStack (.comment (normalizeLineEnds t.text)) := by
+      obtain ⟨c1, c2, c3, c4⟩ := commentAcc_normalize ht
+      simp only [ValAcc, commentAcc, Bool.and_eq_true, Bool.not_eq_true', bne_iff_ne, ne_eq]
+      exact ⟨⟨⟨c1, c2⟩, c3⟩, c4⟩
+    exact ⟨⟨h.facts, addLeaf_chain (.comment (normalizeLineEnds t.text)) h.chain hval rfl rfl, h.eb⟩,
+      EnvReach.refl _⟩
   | pi target content sp =>
-    simp only [Builder.step, Builder.processingInstruction, Step.ok.injEq] at hr
+    simp only [Builder.step] at hr
+    split at hr
+    · cases hr
+    rename_i hres
+    simp only [Builder.processingInstruction, Step.ok.injEq] at hr
     subst hr
     have hreach : EnvReach b.env (b.env.internName target.text Env.noNamespace).1 :=
       EnvReach.name _ _ (EnvReach.refl _)
     obtain ⟨n1, n2, n3⟩ := internName_facts b.env target.text Env.noNamespace
     have hval : ValAcc (b.env.internName target.text Env.noNamespace).1 b.nsStack
-        (.pi (b.env.internName target.text Env.noNamespace).2 (content.map fun c => c.text)) := by
-      refine ⟨n1, n3, ?_, ?_⟩
+        (.pi (b.env.internName target.text Env.noNamespace).2
+          (content.map fun c => normalizeLineEnds c.text)) := by
+      refine ⟨n1, n3, ?_, ?_, ?_⟩
       · rw [n2]; cases content <;> simp only [Token.accLex, Bool.and_eq_true] at ht
         · exact ht
         · exact ht.1.1.1.1
@@ -298,8 +313,11 @@ theorem step_acc {b b' : Builder} (t : Token) (h : AccInv b) (ht : t.accLex = tr
         | none => rfl
         | some c =>
           simp only [Token.accLex, Bool.and_eq_true] at ht
-          simp only [Option.map_some, dataAcc, Bool.and_eq_true]
+          simp only [Option.map_some, dataAcc]
+          apply piData_normalize
+          simp only [Bool.and_eq_true]
           exact ⟨⟨⟨ht.1.1.1.2, ht.1.1.2⟩, ht.1.2⟩, ht.2⟩
+      · rw [n2]; simpa using hres
     refine ⟨⟨hreach.facts h.facts, ?_, fun e he => (h.eb e he).mono hreach.app⟩, hreach⟩
     exact addLeaf_chain (b := { b with env := (b.env.internName target.text Env.noNamespace).1 }) _
       (ChainAcc.mono hreach.app h.chain) hval rfl rfl
